@@ -15,7 +15,9 @@ type HashValue struct {
 
 // Get hashes the sticky value.
 func (v *HashValue) Get(raw *url.URL) string {
-	return v.hash(raw.String())
+	// FindURL compares against the normalized URL (scheme, host, path): hash the same form here,
+	// otherwise a server URL carrying userinfo or a query would never be found again.
+	return v.hash(normalized(raw))
 }
 
 // FindURL gets url from array that match the value.
